@@ -50,10 +50,10 @@ def handlePuso (j : Json) : Except String Json := do
   let io ← j.getObjVal? "in_order" >>= Json.getBool?
   let seed ← j.getObjVal? "seed" >>= Json.getNat?
   let init ← ints j "init"
-  -- "guard": true = the kernel with the repair of D5 (`if(num_terms) index[0] = 0;`); default: the code as it is
+  -- "guard": false = `anneal_puso.c` before the repair of D5 (documentation only); default true = the code as it is
   let guard := match j.getObjVal? "guard" with
     | .ok (Json.bool b) => b
-    | _ => false
+    | _ => true
   pure (reply (decide (WFPuso N nc terms cs Ts na init ∧ (guard = true ∨ 1 ≤ cs.length)))
     (cAnnealPuso guard pcgSrc N nc terms cs Ts na io init (Rng.init seed))
     (Kernel.annealPuso pcgSrc { nc := nc.map Int.toNat, terms := terms.map Int.toNat, cs } N.toNat Ts io init na.toNat
